@@ -326,3 +326,29 @@ Fixpoint read_rows (e : env) (rows : list (list text)) (line : nat) (s : cstate)
       end
   end.
 Definition cid_read (e : env) (rows : list (list text)) : cidres := read_rows e rows 0 cstate0.
+
+(* a CID built call by call through add_data_format_row / add_field_format_row / add_check_row by a caller that
+   reports a refused call (InterfaceError) and goes on: the refused call leaves the CID as it was *)
+Fixpoint api_steps (e : env) (rows : list (list text)) (s : cstate) (refused : nat) : option (cstate * nat) :=
+  match rows with
+  | [] => Some (s, refused)
+  | row :: rest =>
+      match row_step e s row with
+      | ROk s' => api_steps e rest s' refused
+      | RInterface => api_steps e rest s (S refused)
+      | RLeak | ROut => None
+      end
+  end.
+
+(* lookups by name on the finished CID: Cid.field_index / field_value_for go through a map from name to position that
+   add_field_format fills with the number of fields declared so far *)
+Fixpoint index_of (n : text) (names : list text) : option nat :=
+  match names with
+  | [] => None
+  | x :: rest => if text_eqb x n then Some 0%nat else option_map S (index_of n rest)
+  end.
+Definition field_index (s : cstate) (n : text) : option nat := index_of n (map fs_name (st_fields s)).
+Definition field_value_for (s : cstate) (n : text) (row : list text) : option text :=
+  if Nat.eqb (length row) (length (st_fields s)) then
+    match field_index s n with Some i => nth_error row i | None => None end
+  else None.
